@@ -109,6 +109,21 @@ func init() {
 		Stub: []string{"goroutine scheduler (rt)", "sync.Mutex blocking (simsync)", "batch entropy: deterministic reader"},
 		Run:  runC18B,
 	})
+	// The same scenario decides the caching-verifier clause of C09 ("verification through the
+	// caching verifier under any history of cache hits, misses and evictions returns the same
+	// decision as plain verification"): histories produced by several callers at once are
+	// histories too.
+	Register(&Workload{
+		Name:     "C09C",
+		Property: "C09",
+		Phase:    "one caching verifier shared by concurrent validators",
+		Variants: []string{"instr"},
+		Rule: "the scenario of C18 phase B: one cache.Verifier over NewLRUCache(1..3) shared by 2..4 tasks x 1..5 operations (VerifyWithOptions, AddPublicKey, AddWithOptions + Verify) over valid / invalid / undecodable / short keys, preempted at statement-level yields inside cache.go and lru.go; oracle: every cached decision (single and batch) equals plain ed25519.VerifyWithOptions; " +
+			"non-trivial = at least one switch while the leaving task was inside a verifier call; distinct = distinct event-log digests",
+		Real: []string{"cache.Verifier", "cache.NewLRUCache", "ed25519.VerifyExpandedWithOptions", "ed25519.BatchVerifier"},
+		Stub: []string{"goroutine scheduler (rt)", "sync.Mutex blocking (simsync)", "batch entropy: deterministic reader"},
+		Run:  runC18B,
+	})
 }
 
 func runC18B(e *Env, r *core.Run) {
